@@ -9,6 +9,7 @@ import (
 	"os"
 	"path/filepath"
 	"sort"
+	"strings"
 	"time"
 
 	"github.com/FollowTheProcess/msg"
@@ -382,6 +383,15 @@ func (a *App) clean(spokfile *file.SpokFile) error {
 			}
 			toRemove = append(toRemove, resolved)
 		}
+
+		// And everything currently matching the declared glob outputs
+		for _, pattern := range task.GlobOutputs {
+			matches, err := spokfile.ExpandGlob(pattern)
+			if err != nil {
+				return err
+			}
+			toRemove = append(toRemove, matches...)
+		}
 	}
 
 	// Finally, add spok's own cache to the clean list
@@ -391,6 +401,14 @@ func (a *App) clean(spokfile *file.SpokFile) error {
 	if len(toRemove) == 0 {
 		msg.Fsuccess(a.stream.Stdout, "Nothing to remove")
 		return nil
+	}
+
+	// An output that evaluates to e.g. "" or "." resolves to the project directory itself, never
+	// remove that, anything above it or the spokfile, whatever the outputs say
+	for _, file := range toRemove {
+		if file == spokfile.Path || holds(file, spokfile.Dir) {
+			return fmt.Errorf("Refusing to remove %s: it is the spokfile or contains the directory the spokfile is in", file)
+		}
 	}
 
 	for _, file := range toRemove {
@@ -407,6 +425,12 @@ func (a *App) clean(spokfile *file.SpokFile) error {
 // setStream reassigns all the app's IO streams to match the one passed in.
 func (a *App) setStream(stream iostream.IOStream) {
 	a.stream = stream
+}
+
+// holds reports whether dir is target itself or one of the directories above it.
+func holds(dir, target string) bool {
+	rel, err := filepath.Rel(dir, target)
+	return err == nil && rel != ".." && !strings.HasPrefix(rel, ".."+string(filepath.Separator))
 }
 
 func exists(path string) bool {
